@@ -1,5 +1,6 @@
 import ServlinVerif.Driver.C17
 import ServlinVerif.Model.Logger
+import ServlinVerif.Model.LoggerWorld
 /- Driver for suite c18: per-phase thread programs; captured events compared per thread. -/
 namespace Servlin
 namespace Drv.C18
@@ -73,6 +74,30 @@ def runProgram (sink : Sink) (ops : List POp) : List String × List (Event × Li
       (tt', res ++ [if d.stopped then "stopped" else s!"resp{resp.1}"], evs ++ d.toInstalled.map (·, ctags ++ tt'))) ([], [], [])
   (res, evs)
 
+/-- The same phase on the world model (`Model/LoggerWorld.lean`): the logger is set up, then the threads' programs run one
+    thread after the other (by `C18_thread_isolation` every interleaving gives each thread the same outcomes). -/
+def worldOps (sink : Sink) (progs : List (List POp)) : List LoggerWorld.Op :=
+  (match sink with
+   | .installed true => [LoggerWorld.Op.setLogger]
+   | .installed false => [.setLogger, .dropReceiver]
+   | .none => []) ++
+  (progs.zipIdx.flatMap fun (ops, t) => ops.flatMap fun op =>
+    match op with
+    | .add tag => [LoggerWorld.Op.addTag t tag]
+    | .clear => [.clear t]
+    | .log level msg tags => [.log t level (⟨"msg".toList, .str msg⟩ :: tags)]
+    | .wrapped m p bl r =>
+      let (_, level, ctags) := logResponse r
+      [.clear t] ++ (requestTags m p bl).map (LoggerWorld.Op.addTag t) ++ [.log t level ctags])
+
+/-- Per thread: (results of its logging calls, events delivered to the installed logger), from the world model. -/
+def worldRuns (sink : Sink) (progs : List (List POp)) : List (List Bool × List Event) :=
+  let w := LoggerWorld.run {} (worldOps sink progs)
+  (List.range progs.length).map fun t =>
+    let mine := (w.out.filter fun p => p.1 == t).map (·.2)
+    (mine.map (fun o => match o with | .stopped => true | _ => false),
+     mine.filterMap fun o => match o with | .toLogger _ e => some e | _ => none)
+
 def showEvent (e : Event) : String :=
   C17.charsHex ("\"level\":\"".toList ++ e.level.text ++ "\"".toList ++ (if e.tags.isEmpty then [] else ',' :: tagsText e.tags))
 
@@ -115,12 +140,16 @@ def handle (args : List String) (obs : String) : String :=
         | none => ("bad-case", ["bad-case"])
         | some progs =>
           let runs : List (List String × List (Event × List Tag)) := progs.map (runProgram sink)
+          -- the world model must tell the same story as the per-thread model (which is what is compared with the code)
+          let wr := worldRuns sink progs
+          let worldOk := (wr.zip runs).all fun (p : (List Bool × List Event) × (List String × List (Event × List Tag))) =>
+            p.1.1 == p.2.1.map (fun s => s == "stopped") && p.1.2 == p.2.2.map (fun (q : Event × List Tag) => q.1)
           let expRes := "/".intercalate (runs.map fun (r : List String × List (Event × List Tag)) => ",".intercalate r.1)
           let obsEvents := splitNonEmpty evS ";"
           let perThread : List (List String) := (List.range progs.length).map fun t => obsEvents.filter fun e => threadOf e == some t
           let expPerThread : List (List String) := runs.map fun (r : List String × List (Event × List Tag)) => r.2.map (fun (p : Event × List Tag) => showEvent p.1)
           let allAssigned := obsEvents.all fun e => (threadOf e).isSome
-          let ok := resS == expRes && allAssigned &&
+          let ok := worldOk && resS == expRes && allAssigned &&
             (if isX then (perThread.zip expPerThread).all (fun (o, e) => o.isPrefixOf e) else perThread == expPerThread)
           -- model column: echo the observation when every thread's subsequence is as predicted
           let modelS := if ok then ob else expRes ++ "#" ++ ";".intercalate expPerThread.flatten
